@@ -115,6 +115,12 @@ def gen_const(rng: random.Random, name: str):
             v = hi * 2
             return ["c", t, name, "(%s) * 2" % e, [v.numerator, v.denominator]]
         if choice == 6:
+            if rng.random() < 0.6:
+                # tiny magnitudes (below the smallest subnormal of the type): exact rationals within the range, hence valid
+                from fractions import Fraction as _F
+                lit, v = rng.choice([("1e-8", _F(1, 10**8)), ("1e-46", _F(1, 10**46)), ("2 ** -1075", _F(1, 2**1075)), ("-(2 ** -1200)", -_F(1, 2**1200)),
+                                     ("1e-400", _F(1, 10**400)), ("-1e-30", -_F(1, 10**30)), ("6e-8", _F(6, 10**8)), ("2 ** -25", _F(1, 2**25)), ("1 / 3 ** 90", _F(1, 3**90))])
+                return ["c", t, name, lit, [v.numerator, v.denominator]]
             return ["c", t, name, "0.1", [1, 10]]
         if choice == 7:
             n = rng.randint(-1000, 1000)
@@ -164,6 +170,7 @@ class C12(Check):
         try:
             shapes = []
             nt = False
+            pool: list = []
             for k, d in uni.defs.items():
                 consts = [it for it in d["secs"][0]["items"] if it[0] == "c"]
                 ok_all = True
@@ -208,12 +215,53 @@ class C12(Check):
                     continue
                 for c, it in zip(rc, consts):
                     self._invariant(out, k, c, it, pydsdl)
+                    pool.append((c, it))
+            # the same rules through the public constructor: the value of one returned constant offered to the type of another
+            # (as the expression value it holds, and as the Constant object itself)
+            for i, (c, it) in enumerate(pool[:8]):
+                c2, it2 = pool[(i * 7 + 3) % len(pool)]
+                t2 = it2[1]
+                v = it[4]
+                val = [ord(v["str"]), 1] if isinstance(v, dict) else v
+                good = rules.const_value_ok(t2, val)
+                for how, init in (("value", c.value), ("constant-object", c)):
+                    try:
+                        new = pydsdl.Constant(c2.data_type, "API_K", init)
+                    except Exception as ex:
+                        if how == "value" and good and isinstance(ex, pydsdl.InvalidDefinitionError):
+                            out.fail("C12.accept", "Constant(%s, value of %s %s) rejected: %s" % (T.type_str(t2), T.type_str(it[1]), it[3], str(ex)[:200]), "api-rejected")
+                        continue
+                    out.stats["api_constructions"] += 1
+                    if how == "value" and not good:
+                        out.fail("C12.reject", "Constant(%s, value of %s %s) accepted although the value does not comply with the type" % (T.type_str(t2), T.type_str(it[1]), it[3]), "api-accepted")
+                    elif not good:
+                        # a Constant object as initializer: whatever the constructor makes of it, the result must be compliant
+                        self._compliant(out, "Constant(%s, <Constant %s %s>)" % (T.type_str(t2), T.type_str(it[1]), it[3]), new, pydsdl)
             out.nontrivial = nt
             out.shapes = [digest(s) for s in shapes if s[2] != 'mid']
             out.stats["constants"] += len(shapes)
         finally:
             w.close()
         return out
+
+    def _compliant(self, out, where, c, pydsdl) -> None:
+        dt, val = c.data_type, c.value
+        if isinstance(dt, pydsdl.BooleanType):
+            ok = isinstance(val, pydsdl.Boolean)
+        elif not isinstance(val, pydsdl.Rational):
+            ok = False
+        else:
+            f = Fraction(val.native_value)
+            if isinstance(dt, pydsdl.UnsignedIntegerType):
+                ok = f.denominator == 1 and 0 <= f <= 2 ** dt.bit_length - 1
+            elif isinstance(dt, pydsdl.SignedIntegerType):
+                ok = f.denominator == 1 and -(2 ** (dt.bit_length - 1)) <= f <= 2 ** (dt.bit_length - 1) - 1
+            elif isinstance(dt, pydsdl.FloatType):
+                ok = abs(f) <= T.FLOAT_MAX[dt.bit_length]
+            else:
+                ok = False
+        if not ok:
+            out.fail("C12.invariant", "%s was accepted and holds %s, which does not comply with %s" % (where, val, dt), "api-noncompliant")
 
     def _vclass(self, t, v) -> str:
         if t[0] == "bool":
